@@ -244,6 +244,7 @@ def attempt(fn):
 
 HANGS = [0]
 PER_SIG = {}
+NAN_RECS = ([], {})
 
 
 def viol(chk, monitor, sig, detail, rp=None):
@@ -307,6 +308,11 @@ def tree_cases():
             add("BitString", [1 if i == pos else 0 for i in range(L)], klass=c, name=name)
     for name, num in sorted(ObjectType.enumerations.items(), key=lambda kv: kv[1]):
         add("ObjectIdentifier", [num, (num * 65537 + 4194303) % 4194304], name=name)
+    for c in sorted(set(subclasses(Unsigned)) - {Unsigned8, Unsigned16}, key=lambda c: c.__name__):
+        for x in {c._low_limit, c._high_limit if c._high_limit is not None else 65536}:
+            add("Unsigned", int_limbs(x), klass=c)
+    for c in sorted(set(subclasses(OctetString)), key=lambda c: c.__name__):
+        add("OctetString", [255, 1, 7], klass=c)
     others = [c for c in subclasses(Atomic) if c.__module__ != "bacpypes.primitivedata" and not issubclass(c, (Enumerated, BitString))]
     return cases, info, {"enumerated_subclasses": len(enums), "enumeration_names": n_names, "bitstring_subclasses": len(bits),
                          "other_atomic_subclasses": sorted(c.__name__ for c in others)}
@@ -359,6 +365,11 @@ def replay_case(chk, r, info):
     cc = case_class(ty, v)
     rp = {"kind": "case", "ty": ty, "v": v, "klass": klass.__module__ + "." + klass.__name__, "name": g.get("name")}
     hows = [None] + ([g["name"]] if g.get("name") else [])
+    if r["nan"]:
+        # all NaNs are one value (Prims.Same): the comparison is left to TLC, through the record path
+        for c in [[-1]] + r["ctx"]:
+            one_record(chk, ty, v, c[0], NAN_RECS[0], NAN_RECS[1])
+        return
     if ty == "RealFromDouble" and r["rep"]:
         return              # a double within binary32's range: rounding is by design, nothing is specified here
     nontrivial = cc not in ("any", "1-octet", "len<=4", "in-range", "normal") or bool(r["gen"])
@@ -413,7 +424,7 @@ def replay_case(chk, r, info):
             # the implementation's own notion of "the same value" (names of enumerations, object types)
             chk.monitor("RoundTrip")
             if not r["nan"] and built[0] == "ok" and dec[1].value != built[1].value:
-                viol(chk, "RoundTrip", dict(sig, tagging=tagging, what="value-changed"),
+                viol(chk, "RoundTrip", dict(type=ty, what="value-changed", **({"class": sig["class"]} if "class" in sig else {})),
                               dict(detail, constructed=repr(built[1].value)[:80], after_round_trip=repr(dec[1].value)[:80]), dict(rp, n=n))
         # Any.cast_in / cast_out carry the application form
         if r["rep"] and r["cap"] and built[0] == "ok" and ty != "RealFromDouble":
@@ -436,7 +447,7 @@ def replay_case(chk, r, info):
                 viol(chk, "EncEqualsSpec", dict(sig, tagging="any"), {"type": ty, "value": show_v(ty, v), "expected": exp_o[:24].hex(),
                                                                            "got": ra[1][0][:24].hex() if ra[0] == "ok" else ra[1]}, dict(rp, n=-1))
             elif not r["nan"] and ra[1][1] != built[1].value:
-                viol(chk, "RoundTrip", dict(sig, tagging="any", what="value-changed"),
+                viol(chk, "RoundTrip", dict(type=ty, what="value-changed", **({"class": sig["class"]} if "class" in sig else {})),
                               {"type": ty, "class": klass.__name__, "constructed": repr(built[1].value)[:80], "cast_out": repr(ra[1][1])[:80]}, dict(rp, n=-1))
 
 
@@ -494,8 +505,41 @@ def jsonable(ty, pv):
     return pv
 
 
-def random_records(chk, rng, n):
-    recs, meta = [], {}
+def one_record(chk, ty, v, ctx, recs, meta):
+    """encode v with the implementation, decode the result with it, append the record for TLC; returns 1 if refused (allowed)"""
+    rp = {"kind": "random", "ty": ty, "v": v, "n": ctx}
+    klass = KLASS[ty]
+    built = guarded(chk, lambda: construct(ty, v), "constructor", rp)
+    if built is None:
+        return 0
+    got = built if built[0] == "raised" else guarded(chk, lambda: impl_encode(built[1], ctx), "encode", rp)
+    if got is None:
+        return 0
+    cc = case_class(ty, v)
+    chk.case(("rand", ty, tuple(v), ctx), nontrivial=True)
+    if got[0] != "ok":
+        if cc == "needs>4octets":
+            chk.monitor("RefusesUnrepresentable")
+            return 1            # allowed: beyond the encoder's capacity
+        viol(chk, "EncEqualsSpec", {"type": ty, "case": cc, "tagging": "app" if ctx < 0 else "ctx"},
+             {"type": ty, "value": show_v(ty, v), "raised": got[1], "what": "refused a value of the accepted domain"}, rp)
+        return 0
+    dec = guarded(chk, lambda: jsonable(ty, project(ty, impl_decode(klass, got[1], ctx))), "decode", rp)
+    if dec is None:
+        return 0
+    if dec[0] != "ok" or dec[1] is None or (dec[1] and dec[1][0] == "?"):
+        viol(chk, "RoundTrip", {"type": ty, "case": cc, "tagging": "app" if ctx < 0 else "ctx"},
+             {"type": ty, "value": show_v(ty, v), "octets": got[1][:24].hex(), "decode": str(dec[1])[:100]}, rp)
+        return 0
+    rid = len(recs) + 1
+    recs.append({"id": rid, "ty": ty, "n": ctx, "v": v, "o": list(got[1]), "d": dec[1]})
+    meta[rid] = (ty, v, ctx, cc, got[1])
+    return 0
+
+
+def random_records(chk, rng, n, recs=None, meta=None):
+    recs = [] if recs is None else recs
+    meta = {} if meta is None else meta
     refused = 0
     for i in range(n):
         ty = RAND_TYPES[i % len(RAND_TYPES)]
@@ -511,34 +555,7 @@ def random_records(chk, rng, n):
             v = first[1]
         else:
             v = rand_value(rng, ty)
-        rp = {"kind": "random", "ty": ty, "v": v, "n": ctx}
-        klass = KLASS[ty]
-        built = guarded(chk, lambda: construct(ty, v), "constructor", rp)
-        if built is None:
-            continue
-        got = built if built[0] == "raised" else guarded(chk, lambda: impl_encode(built[1], ctx), "encode", rp)
-        if got is None:
-            continue
-        cc = case_class(ty, v)
-        chk.case(("rand", ty, tuple(v), ctx), nontrivial=True)
-        if got[0] != "ok":
-            if cc == "needs>4octets":
-                refused += 1            # allowed: beyond the encoder's capacity
-                chk.monitor("RefusesUnrepresentable")
-            else:
-                viol(chk, "EncEqualsSpec", {"type": ty, "case": cc, "tagging": "app" if ctx < 0 else "ctx"},
-                              {"type": ty, "value": show_v(ty, v), "raised": got[1], "what": "refused a value of the accepted domain"}, rp)
-            continue
-        dec = guarded(chk, lambda: jsonable(ty, project(ty, impl_decode(klass, got[1], ctx))), "decode", rp)
-        if dec is None:
-            continue
-        if dec[0] != "ok" or dec[1] is None or (dec[1] and dec[1][0] == "?"):
-            viol(chk, "RoundTrip", {"type": ty, "case": cc, "tagging": "app" if ctx < 0 else "ctx"},
-                          {"type": ty, "value": show_v(ty, v), "octets": got[1][:24].hex(), "decode": str(dec[1])[:100]}, rp)
-            continue
-        rid = len(recs) + 1
-        recs.append({"id": rid, "ty": ty, "n": ctx, "v": v, "o": list(got[1]), "d": dec[1]})
-        meta[rid] = (ty, v, ctx, cc, got[1])
+        refused += one_record(chk, ty, v, ctx, recs, meta)
     return recs, meta, refused
 
 
@@ -551,7 +568,7 @@ def validate_records(chk, recs, meta, label):
         with open(tf, "w") as f:
             for r in recs:
                 f.write(json.dumps(r, separators=(",", ":")) + "\n")
-        res = tlc.run_tlc("MC_Prims", cfg_text=cfg("InitRec", ["ImplRec"]), env={"TRACE_FILE": tf, "CASE_FILE": tf, "JAVA_TOOL_OPTIONS": "-Xss32m"},
+        res = tlc.run_tlc("MC_Prims", cfg_text=cfg("InitRec", ["ImplRec"]), env={"TRACE_FILE": tf, "CASE_FILE": tf, "JDK_JAVA_OPTIONS": "-Xss256m"},
                           timeout=1800, name="Prims/records:" + label)
     finally:
         shutil.rmtree(wd, ignore_errors=True)
@@ -599,6 +616,8 @@ def run_grid(chk, thorough, only=None):
         with open(out) as f:
             for line in f:
                 r = json.loads(line)
+                if only is not None and not r["gen"]:
+                    continue                    # replay of one case: skip the fixed grid
                 n += 1
                 nrep += r["rep"]
                 nunrep += not r["rep"]
@@ -628,8 +647,18 @@ def main(tier, seed):
         "numbers needing more than 4 contents octets: the encoder may refuse or must emit the canonical longer form",
         "enumeration tables are those of the working tree (names <-> numbers are not compared with the standard here)"]
     run_grid(chk, thorough)
-    recs, meta, refused = random_records(chk, rng, 60000 if thorough else 7000)
-    validate_records(chk, recs, meta, "random")
+    recs, meta, refused = random_records(chk, rng, 60000 if thorough else 7000, NAN_RECS[0], NAN_RECS[1])
+    # every small number, exhaustively across the 1-octet (quick) and 2-octet (thorough) boundaries
+    lim = 70000 if thorough else 1100
+    for x in range(-lim, lim + 1):
+        one_record(chk, "Integer", int_limbs(x), -1 if x % 3 else BOUNDARY_CTX[x % 6], recs, meta)
+        if x >= 0:
+            one_record(chk, "Unsigned", int_limbs(x), -1 if x % 3 else BOUNDARY_CTX[x % 6], recs, meta)
+    chk.extra["exhaustive_small_numbers"] = {"Integer": [-lim, lim], "Unsigned": [0, lim]}
+    B = 80000
+    for i in range(0, len(recs), B):
+        part = recs[i:i + B]
+        validate_records(chk, [dict(r, id=j + 1) for j, r in enumerate(part)], {j + 1: meta[r["id"]] for j, r in enumerate(part)}, "random+small[%d]" % (i // B))
     chk.extra["random"] = {"records": len(recs), "refused_beyond_capacity": refused,
                            "by_type": {t: sum(1 for r in recs if r["ty"] == t) for t in RAND_TYPES}}
     chk.extra["level_note"] = ("codec property: exhaustive over boundary classes and the tree's tables, sampled elsewhere; not a proof for all values. "
